@@ -224,3 +224,87 @@ def correspond(ctx, deep=False, project=None, only=None):
             f'{key}: call #{idx} (kind {call[0] if call else None}) differs at {path}: model {str(m)[:300]} / code {str(r)[:300]}',
             {'scenario': key, 'actions': acts, 'conf': conf, 'seed': seed, 'call': idx}))
     return fails
+
+
+# ---- the tie used by the checks whose theorems are stated about Hdl.v ------------------------------------
+def _fingerprint(ctx, deep):
+    import glob
+    import hashlib
+    import os
+    h = hashlib.sha256()
+    files = sorted(glob.glob(os.path.join(core.REPO, '*.py')))
+    files += [os.path.join(core.VERIF, 'coq', 'ikesa', f) for f in ('Hdl.v', 'HdlRun.v', 'Shell.v', 'Gen/IkeFacts.v')]
+    files += sorted(glob.glob(os.path.join(core.VERIF, 'py', 'sim', '*.py')))
+    files += [os.path.join(core.VERIF, 'py', 'props', 'hdl.py'), os.path.join(core.VERIF, 'py', 'vlib', 'core.py'),
+              os.path.join(core.VERIF, 'coq', 'lib', 'Sx.v'), os.path.join(core.VERIF, 'coq', 'lib', 'Bytes.v')]
+    for f in files:
+        h.update(f.encode())
+        try:
+            h.update(open(f, 'rb').read())
+        except OSError:
+            h.update(b'<missing>')
+    h.update(repr((ctx.seed, bool(deep))).encode())
+    return h.hexdigest()
+
+
+def tie(ctx):
+    """Handler-model correspondence as a tie of the calling check.  The evaluation is deterministic in the source
+    files, the model files, the seed and the tier, and four checks share it: its verdict is cached under
+    .work/hdlcache keyed by a hash of all of these (a changed tree or model gives a new key; VERIF_NO_CACHE=1
+    disables the cache)."""
+    import os
+    deep = not ctx.quick()
+    key = _fingerprint(ctx, deep)
+    cdir = os.path.join(core.VERIF, '.work', 'hdlcache')
+    path = os.path.join(cdir, key + '.json')
+    if os.environ.get('VERIF_NO_CACHE') != '1' and os.path.exists(path):
+        try:
+            obj = json.load(open(path))
+            for c in obj['cases']:
+                ctx.case(tuple(c[0]), nontrivial=c[1])
+            for k, v in obj['counts'].items():
+                for _ in range(v):
+                    ctx.count(k)
+            ctx.cov['handler_correspondence'] = f'shared evaluation {key[:12]} (cached)'
+            return [core.Failure('correspondence', f['signature'], f['detail'], f['replay']) for f in obj['failures']]
+        except Exception:
+            pass
+    before = dict(ctx.hist)
+    sub_cases = []
+    orig_case = ctx.case
+
+    def case(obj, nontrivial=True, sample=False):
+        sub_cases.append((list(obj), bool(nontrivial)))
+        return orig_case(obj, nontrivial=nontrivial, sample=sample)
+    ctx.case = case
+    try:
+        fails = correspond(ctx, deep=deep)
+    finally:
+        ctx.case = orig_case
+    counts = {k: v - before.get(k, 0) for k, v in ctx.hist.items() if k.startswith('hdl-') and v - before.get(k, 0) > 0}
+    ctx.cov['handler_correspondence'] = f'evaluated {len(sub_cases)} endpoint histories ({key[:12]})'
+    try:
+        os.makedirs(cdir, exist_ok=True)
+        tmp = path + f'.{os.getpid()}'
+        json.dump({'failures': [{'signature': f.signature, 'detail': f.detail, 'replay': f.replay} for f in fails],
+                   'cases': sub_cases, 'counts': counts}, open(tmp, 'w'), default=str)
+        os.replace(tmp, path)
+    except OSError:
+        pass
+    return fails
+
+
+TRUSTED = ['hand-written model coq/ikesa/Hdl.v of ALL exchange handlers of ikesa.py (and of Xfrm.create_child_sa / '
+           'delete_child_sa as sequences of kernel requests), instantiating the interface of Shell.v; tied to the code by '
+           'replaying whole endpoint histories recorded from the real IkeSaController.main_loop (py/sim/hdltrace.py) in '
+           'the model, call by call, comparing after every call the complete IkeSa state (state, SPIs, key ring, chosen '
+           'proposal, CHILD_SAs, exchange context, successor IKE_SA, message IDs, timers, queue length, stored request / '
+           'response), the reply and the kernel operations with their verdicts',
+           'environment of the handler model (not verified): cryptographic functions, Diffie-Hellman, serialisation of the '
+           'IKE_SA_INIT messages and cookies are tables recorded from the real run; random draws, fresh DH key pairs and '
+           'kernel verdicts are replayed in call order from the recorded tape (a draw in a different order shows as a '
+           'mismatch); Message.parse results are inputs',
+           'abstractions of the handler model: value semantics (the shared mutable Proposal objects of the configuration '
+           'whose .spi every request rewrites are values: the SPIs kept inside a stored request / ChildSa proposal are not '
+           'compared, what is SENT is); log output is not modelled; exceptions are classes (any non-IkeSaError exception '
+           'is one class)']
